@@ -23,7 +23,8 @@ add('C18', 'fault_enumeration',
     '(class known by construction, expected RFC code set per class); plus random hostile traffic delivered frame by frame '
     'where every raise must yield exactly one GOAWAY, last in the output, code == exception code, last-stream-id == highest '
     'peer-opened id. Held/violated on those executions only.',
-    'Expected-code table written from RFC 7540 sections 4-6; last-stream-id oracle accepts the offending stream-opening frame id.')
+    'Expected-code table written from RFC 7540 sections 4-6; last-stream-id oracle accepts the offending stream-opening frame id, '
+    'and, once the endpoint has refused a promised stream with RST_STREAM(REFUSED_STREAM), either the refused id or the event watermark.')
 
 add('C19', 'exploration',
     'runtime monitoring: post-closure trace oracle (only GOAWAY on the wire, every emitting call raises ProtocolError) over generated histories',
@@ -180,6 +181,17 @@ add('C24', 'exploration',
     'only before response headers; ignored frames must leave no event, no output and - on servers - no behavioural difference '
     'against a twin in a continuation that includes a push.',
     'Stream advertisements after only an informational response, on reserved streams, and ALTSVC received after only a 1xx are undetermined.')
+
+add('C25', 'exploration',
+    'runtime monitoring: setting-by-setting view comparison + behavioural probes on both real endpoints after an h2c upgrade, over an exhaustive settings grid',
+    'Grid of 1728 client settings combinations (HEADER_TABLE_SIZE, ENABLE_PUSH, MAX_CONCURRENT_STREAMS, INITIAL_WINDOW_SIZE, '
+    'MAX_FRAME_SIZE, MAX_HEADER_LIST_SIZE, ENABLE_CONNECT_PROTOCOL) is enumerated on every run: the HTTP2-Settings value returned by the '
+    'real client is handed unmodified to a real server, whose remote_settings and derived state (frame size, stream-1 send window, '
+    'push gate, encoder table size, judged by an independent HPACK decoder) are compared before any in-band frame is read; stream 1 '
+    'is then exercised on both sides through real calls (no request body possible, response and push delivered, closed afterwards), '
+    'first new ids 3 and 2, and a continuation exchange (request with body, response with trailers, pushed response, ping). '
+    'Held/violated on those executions only.',
+    'Continuation programs are a fixed family with random ordering choices, not arbitrary programs; settings values come from the grid only.')
 
 NOT_BUILT_REASON = 'check not built yet in this session (planned in DESIGN.md; no verdict claimed)'
 
